@@ -7,12 +7,12 @@ import (
 	"encoding/base64"
 	"encoding/hex"
 	"encoding/json"
-	"errors"
 	"fmt"
 	"net/http"
 	"os"
 	"path/filepath"
 	"sort"
+	"strings"
 	"sync/atomic"
 	"time"
 
@@ -21,7 +21,6 @@ import (
 	"github.com/nuts-foundation/go-did/vc"
 	"github.com/nuts-foundation/nuts-node/vcr/credential"
 	"github.com/nuts-foundation/nuts-node/vcr/revocation"
-	"github.com/nuts-foundation/nuts-node/vcr/types"
 	"verif/lib/jmut"
 )
 
@@ -206,7 +205,7 @@ func vcrEntries(h *harness) []*entry {
 		"gzip-extra-fields": base64.RawURLEncoding.EncodeToString([]byte{0x1f, 0x8b, 8, 0xff, 0, 0, 0, 0, 0, 0xff, 0xff, 0xff}),
 		"padded-base64":     base64.URLEncoding.EncodeToString([]byte{0x1f, 0x8b}),
 		"std-base64":        base64.StdEncoding.EncodeToString(bytes.Repeat([]byte{0xfb, 0xff}, 30)),
-		"large-list-8MiB":   gz(make([]byte, 8<<20)),
+		"large-list-2MiB":   gz(make([]byte, 2<<20)),
 		"concatenated-gzip": gz(make([]byte, 10)) + gz(make([]byte, 10)),
 	}
 	subjectVCFor := func(url string, index string) vc.VerifiableCredential {
@@ -249,8 +248,10 @@ func vcrEntries(h *harness) []*entry {
 			var firstErr error
 			for _, idx := range []string{"5", "0", "131071", "131072", "-1", "99999999999999999999"} {
 				err := sl.Verify(subjectVCFor(url, idx))
-				if idx == "0" && err != nil && !errors.Is(err, types.ErrRevoked) && !errors.Is(err, revocation.ErrIndexNotInBitstring) {
-					firstErr = err // the other indexes are hostile values of the credential under verification, exercised but not judged
+				// the list itself is rejected when it cannot be obtained/verified ("status list: ..."); a list that was accepted and stored can still make the
+				// verification of *this* credential fail (other purpose, index outside the list): that is not a rejection of the list
+				if idx == "0" && err != nil && strings.HasPrefix(err.Error(), "status list:") {
+					firstErr = err
 				}
 			}
 			return firstErr
